@@ -145,21 +145,21 @@ Proof.
                     (note (EvBody KImport p id) (set_cache [] s1)) Hc') as P.
       cbn [loading note set_cache] in P. rewrite L1 in P. specialize (P Hi1 Hlp Hb).
       destruct (exec_body _ p (content id) _) as [s2|e s2|]; cbn in P |- *; auto.
-      rewrite P. apply remove1_head. exact M.
+      rewrite P; cbn [loading note set_cache]; rewrite L1. apply remove1_head. exact M.
     + (* use *)
       destruct (mem p (cache s1)).
       * cbn. rewrite L1. apply remove1_head. exact M.
       * pose proof (exec_body_post _ IH (content id) (cur :: st) p id (note (EvBody KUse p id) s1) Hc') as P.
         cbn [loading note] in P. rewrite L1 in P. specialize (P Hi1 Hlp Hb).
         destruct (exec_body _ p (content id) _) as [s2|e s2|]; cbn in P |- *; auto.
-        rewrite P. apply remove1_head. exact M.
+        rewrite P; cbn [loading note set_cache]; rewrite L1. apply remove1_head. exact M.
     + (* forward *)
       destruct (mem p (cache s1)).
       * cbn. rewrite L1. apply remove1_head. exact M.
       * pose proof (exec_body_post _ IH (content id) (cur :: st) p id (note (EvBody KForward p id) s1) Hc') as P.
         cbn [loading note] in P. rewrite L1 in P. specialize (P Hi1 Hlp Hb).
         destruct (exec_body _ p (content id) _) as [s2|e s2|]; cbn in P |- *; auto.
-        rewrite P. apply remove1_head. exact M.
+        rewrite P; cbn [loading note set_cache]; rewrite L1. apply remove1_head. exact M.
     + (* load-css: unlocked before the body runs *)
       pose proof (exec_body_post _ IH (content id) (cur :: st) p id
                     (note (EvBody KLoadCss p id) (unlock p s1)) Hc') as P.
